@@ -197,3 +197,52 @@ def tie_base_wiring(ctx):
     if rc != 0:
         return False, out2
     return True, "gen_base_wiring (from gerror/gerror.go, 19 methods) = GErrModel.base_wiring by vm_compute"
+
+
+# ---------------------------------------------------------------- report ordering
+class Reporter:
+    """Orders the reports of a check: cases whose observation violates the specification
+    (verdict 1 = a concrete failing input) are reported first and get the replay slots.  Broken
+    obligations / ties / correspondence-only disagreements (verdict 2) are *deferred*: they are
+    reported, with `no-failing-input-found`, only when no unlisted verdict-1 case exists after a
+    widened generator run; otherwise they are named inside the failing inputs' replay files."""
+
+    def __init__(self, ctx):
+        self.ctx = ctx
+        self.pending = []      # (replay dict, features)
+        self.nviol = 0         # unlisted verdict-1 violations reported so far
+
+    def defer(self, what, detail, kind, extra=None):
+        rep = {"unchecked": what, "detail": (detail or "")[-3000:]}
+        if extra:
+            rep.update(extra)
+        self.pending.append((rep, {"kind": kind, "clause": kind}))
+
+    def obligations(self, props_rel=None):
+        ok, detail = self.ctx.proof_obligations(props_rel)
+        self.ctx.log("proof obligations:", "OK" if ok else "BROKEN", "-", detail.splitlines()[0])
+        if not ok:
+            self.defer("theorem file %s" % (props_rel or "Props/%s.v" % self.ctx.pid), detail, "proof_obligation")
+        return ok
+
+    def failing(self, replay, features):
+        if self.pending:
+            replay = dict(replay)
+            replay["also_unchecked"] = [p[0].get("unchecked") for p in self.pending]
+        r = self.ctx.report(replay, features, failing_input=True)
+        if r == "violation":
+            self.nviol += 1
+        return r
+
+    def need_widened(self):
+        return bool(self.pending) and self.nviol == 0
+
+    def flush(self):
+        """to be called last: the deferred items, when no failing input was found"""
+        if self.nviol == 0:
+            for rep, feat in self.pending:
+                self.ctx.report(rep, feat, failing_input=False)
+        elif self.pending:
+            self.ctx.log("not reported separately (failing inputs above carry them): " +
+                         "; ".join(str(p[0].get("unchecked")) for p in self.pending))
+        self.ctx.cov["deferred_items"] = [p[0].get("unchecked") for p in self.pending]
